@@ -10,6 +10,7 @@ import (
 	"os"
 	"sort"
 	"sync"
+	"sync/atomic"
 	"time"
 	"unsafe"
 
@@ -826,7 +827,8 @@ func (as *AbacoSource) distributePackets(allpackets []*packets.Packet, now time.
 		cidx := gIndex(p)
 		grp := as.groups[cidx]
 		grp.enqueuePacket(p, now)
-		grp.updateFrameTiming(p, as.nextFrameNum)
+		// nextFrameNum is advanced by the block-assembly goroutine (distributeData) while this reader runs
+		grp.updateFrameTiming(p, FrameIndex(atomic.LoadInt64((*int64)(&as.nextFrameNum))))
 	}
 }
 
@@ -1223,8 +1225,10 @@ func (as *AbacoSource) distributeData(buffersMsg AbacoBuffersType) *dataBlock {
 		}(channelIndex)
 	}
 	wg.Wait()
-	block.nSamp = framesUsed // set once, here: every per-channel goroutine used to write it
-	as.nextFrameNum += FrameIndex(framesUsed)
+	// Set the sample count once, here: every per-channel goroutine used to write it.
+	block.nSamp = framesUsed
+	// The frame counter is read concurrently by distributePackets.
+	atomic.AddInt64((*int64)(&as.nextFrameNum), int64(framesUsed))
 	if as.heartbeats != nil {
 		pmb := float64(buffersMsg.totalBytes) / 1e6
 		hwmb := float64(buffersMsg.totalBytes-buffersMsg.droppedBytes) / 1e6
